@@ -9,7 +9,8 @@ import sys
 import gen
 import vlib
 
-UNARY_T = ["exp", "rjac", "ljac", "rjacinv", "ljacinv", "smallAdj", "hat"]
+UNARY_T = ["exp", "rjac", "ljac", "rjacinv", "ljacinv", "smallAdj", "hat", "sqwnorm", "wnorm"]
+BINARY_TT = ["bracket", "inner"]
 UNARY_G = ["log", "inverse", "adj", "transform", "rotation"]
 BINARY_GG = ["compose", "between", "rminus", "lminus"]
 BINARY_GT = ["rplus", "lplus"]
@@ -21,13 +22,29 @@ NO_ROTATION = ("R1", "R2", "R3", "R5")
 def requests_for(r, group, n, dbg, storages=("o",), norm="valid", ops=None):
     """n random requests per op for one group -> list of (line, tags)"""
     out = []
-    allops = UNARY_T + UNARY_G + BINARY_GG + BINARY_GT + ["act"]
+    allops = UNARY_T + UNARY_G + BINARY_GG + BINARY_GT + BINARY_TT + ["act"]
     for op in (ops or allops):
         if op == "rotation" and group in NO_ROTATION:
             continue
         for _ in range(n):
             st = r.choice(storages)
             mask = r.randrange(MASKS.get(op, 1))
+            if op == "generator":
+                i = r.randint(-3, gen.GROUPS[group]["dof"] + 3)
+                out.append((gen.req(dbg, st, group, op, 0, [], [i]), [op, "mask0", st, "idx:%d" % i]))
+                continue
+            if op == "innerWeights":
+                out.append((gen.req(dbg, st, group, op, 0, []), [op, "mask0", st]))
+                continue
+            if op == "vee":
+                m = gen.GROUPS[group]["tsize"]
+                if group == "SO2":
+                    m = 2
+                elif group in ("SE2", "SO3"):
+                    m = 3
+                a = [r.choice([0.0, 1.0, -2.5, r.uniform(-10, 10)]) for _ in range(m * m)]
+                out.append((gen.req(dbg, st, group, op, 0, a), [op, "mask0", st, "alg:generic"]))
+                continue
             if op in UNARY_T:
                 a, tags = gen.tangent(r, group)
             elif op in UNARY_G:
@@ -38,6 +55,10 @@ def requests_for(r, group, n, dbg, storages=("o",), norm="valid", ops=None):
                 if r.random() < 0.3:     # nearby pair: relative transform small
                     d, t2 = gen.tangent(r, group, angle_only=["zero", "small", "below-switch", "above-switch", "low"])
                     a2 = a1  # refined below by the caller when it wants true neighbours
+                a, tags = a1 + a2, t1 + t2
+            elif op in BINARY_TT:
+                a1, t1 = gen.tangent(r, group)
+                a2, t2 = gen.tangent(r, group)
                 a, tags = a1 + a2, t1 + t2
             elif op in BINARY_GT:
                 a1, t1 = gen.element(r, group, norm=norm)
@@ -62,7 +83,9 @@ def same(a, b):
 # Outputs that go through Eigen's GEMM kernel (products of 9x9 / 10x10 / dynamic Jacobians), whose
 # blocked summation order the model does not reproduce: compared under a rounding tolerance
 # relative to the largest entry of the output instead of bit for bit.  Everything else is exact.
-TOL_CELLS = {("SE_2_3", "lplus"), ("SE_2_3", "lminus"), ("SGal3", "lplus"), ("SGal3", "lminus")}
+TOL_CELLS = {("SE_2_3", "lplus"), ("SE_2_3", "lminus"), ("SGal3", "lplus"), ("SGal3", "lminus"),
+             ("SE_2_3", "bracket"), ("SE_2_3", "inner"), ("SE_2_3", "sqwnorm"), ("SE_2_3", "wnorm"),
+             ("SGal3", "bracket"), ("SGal3", "inner"), ("SGal3", "sqwnorm"), ("SGal3", "wnorm")}
 TOL_REL = 1e-12
 
 
